@@ -66,6 +66,19 @@ func exploreFields(rt reflect.Type, tagName string, sorter KeySortMode) []Struct
 				if !isValidTag(name) {
 					name = ""
 				}
+				if sf.PkgPath != "" {
+					// An embedded field of unexported type is itself unexported
+					// and can never be mapped (it cannot be set); only the
+					// fields an embedded struct promotes can.
+					et := sf.Type
+					if et.Name() == "" && et.Kind() == reflect.Ptr {
+						et = et.Elem()
+					}
+					if et.Kind() != reflect.Struct {
+						continue
+					}
+					name = ""
+				}
 				route := make([]int, len(f.ReflectRoute)+1)
 				copy(route, f.ReflectRoute)
 				route[len(f.ReflectRoute)] = i
